@@ -85,7 +85,8 @@ def _funcprime(base, max_count, num_reserved, uint_max):
     Numba function used to determine the base of the log needed.
     """
     M = float64(max_count) - float64(num_reserved)
-    return uint_max * base ** (uint_max - num_reserved) - M
+    K = uint_max - num_reserved
+    return K * base ** (K - 1) - M
 
 
 @njit(float64(uint64, uint32, uint32))
